@@ -5,6 +5,7 @@ from harness import gen_loc
 from harness.impl_loc import impl_loc_op, enc_loc
 
 ID = "C01"
+ERR_CLASS = True
 LEAN_MODULE = "BioCantor.Props.C01"
 DESIGN_REF = "4/C01"
 # Gen kernels (regenerated from source) = hand-written model; C01Ties2 = the block loops of CompoundInterval
